@@ -225,6 +225,8 @@ package ed25519
 //@   loop#6 invariant fok(f, *opts) && g1(publicKeys, messages, sigs, *opts, valid) && g2(valid, ret, len(publicKeys)) && 0 <= i && i <= batchSize && forall(k, 0, i, len(publicKeys[k+offset]) == 32 && optsok(*opts, messages[k+offset]) && (opts.ZIP215Verify || !small(bytesOf(publicKeys[k+offset][0:32]))))
 //@   loop#7 modifies i, batch.points, ret, batchOk, valid[0:len(valid)]
 //@   loop#7 invariant g1(publicKeys, messages, sigs, *opts, valid) && g2(valid, ret, len(publicKeys)) && 0 <= i && i <= batchSize && forall(k, 0, i, decodable(bytesOf(publicKeys[k+offset][0:32])) && decodable(bytesOf(sigs[k+offset][0:32])) && (opts.ZIP215Verify || !small(bytesOf(sigs[k+offset][0:32]))))
+// each chunk draws exactly 16 bytes per entry from the entropy source, with io.ReadFull (all or error)
+//@   lemma after call ReadFull#1 : entropyRead(entropyReads() - 1) == 16 * batchSize
 //@   lemma before call Expand#3 : len(opts.Context) == 0 ==> le(hash[0:64]) % L == hchal(variant(*opts), bnil(), 0, bytesOf(sigs[i+offset][0:32]), bytesOf(publicKeys[i+offset][0:32]), bytesOf(messages[i+offset]))
 //@   lemma before call Expand#3 : len(opts.Context) > 0 ==> le(hash[0:64]) % L == hchal(variant(*opts), bytesOf(opts.Context), len(opts.Context), bytesOf(sigs[i+offset][0:32]), bytesOf(publicKeys[i+offset][0:32]), bytesOf(messages[i+offset]))
 //@   lemma before call multiScalarmultVartime#1 : forallq(k, 0, batchSize, vpre(publicKeys[k+offset], messages[k+offset], sigs[k+offset], *opts))
